@@ -81,7 +81,7 @@ def symcomp(I, st, e, it, mod):
     elif is_symlist(st, it):
         c = st.cell(it)
         n, base = c["__symlen__"], c["__symelem__"]
-        item = lambda k: base(k)
+        item = lambda k: (st.new_arr(base(k)) if isinstance(base(k), Arr) else base(k))
     elif isinstance(it, Ref) and it.kind == "arr":
         a = st.arr(it)
         n = a.shape[0]
